@@ -99,7 +99,8 @@ MENU = {
 
 
 # components that take the value of a name across the sizes at which its own length field grows (252 / 253 bytes and beyond)
-LONG_MENU = {'L': (8, b'L' * 247), 'M': (8, b'm' * 253), 'N': (0x32, b'\x01' * 120)}
+LONG_MENU = {'L': (8, b'L' * 247), 'M': (8, b'm' * 253), 'N': (0x32, b'\x01' * 120), 'p': (8, b'...'), 'q': (8, b'....'), 'r': (8, b'.')}
+RAW_TEXTS = ['e\u0301', '\u212b', 'caf\u00e9', '\u1100\u1161', 'A\u030a\u0323', '\ufb01']     # not in Unicode normal form C (and one that is)
 MENU_ALL = dict(MENU, **LONG_MENU)
 
 
@@ -430,6 +431,26 @@ def unit(arg):
                     check_name(toks, viol)
                     acc.evaluations += 1
                     acc.nontrivial += 1
+        for n in range(1, 4):
+            for toks in itertools.product('apqr', repeat=n):
+                if set(toks) & set('pqr'):
+                    check_name(toks, viol)
+                    acc.evaluations += 1
+                    acc.nontrivial += 1
+        # text given raw (not percent-escaped) stands for its UTF-8 octets exactly, in a URI as in a list of text elements
+        for t in RAW_TEXTS:
+            want = [ts.tlv(8, t.encode('utf-8')), ts.tlv(8, b'a')]
+            for label, val in (('uri', '/' + t + '/a'), ('list-of-text', [t, 'a']), ('generator-of-text', (x for x in [t, 'a'])),
+                               ('escaped-uri', '/' + ''.join('%%%02X' % b for b in t.encode('utf-8')) + '/a')):
+                try:
+                    got = [bytes(c) for c in Name.normalize(val)]
+                    if got != want:
+                        viol.append((f'C09|names|raw-text:{label}', f'text {t!r} given as {label}: components {[g.hex() for g in got]}, its UTF-8 octets are '
+                                                                     f'{want[0].hex()}'))
+                except Exception as e:  # noqa
+                    viol.append((f'C09|names|raw-text:{label}|raises:{type(e).__name__}', f'text {t!r}: {e!r}'))
+                acc.evaluations += 1
+                acc.nontrivial += 1
         component_order(viol, acc)
         acc.sample({'names': 'all 0..3 over ' + ''.join(MENU) + ' and 0..8 over aE and 1..3 over aELMN (L, M, N: components of 249, 257 and 122 bytes)', 'forms': [f[0] for f in name_forms(('a',))[4]]})
     elif k == 'pairs':
